@@ -633,12 +633,34 @@ Definition observe_decode (bs : list Z) (reads : list Z) (pret : list (Z * Z)) :
   end.
 
 (* ---------- building a packet through the public constructors ---------- *)
+(* SetTimestamp keeps the caller's pointer: the caller may change ts.T of the object it handed over, and the
+   packet then carries the new counter (nothing happens when the packet holds no time stamp any more) *)
+Definition mut_ts (p : packet) (t : Z) : packet :=
+  match timestamp p with
+  | None => p
+  | Some ts =>
+      {| version := version p; headerLength := headerLength p; payloadLength := payloadLength p;
+         sourceID := sourceID p; sequenceNumber := sequenceNumber p; packetLength := packetLength p;
+         format := format p; shape := shape p; timestamp := Some {| tsT := t; tsRate := tsRate ts |};
+         payloadLabel := payloadLabel p; offset := offset p; explicitOffset := explicitOffset p;
+         pdat := pdat p |}
+  end.
+
 Inductive bop :=
 | BSetTs (t : Z) (rid : Z)
 | BResetTs
 | BClear
-| BNewData (d : pdata) (dims : list Z).
+| BNewData (d : pdata) (dims : list Z)
+| BMutTs (t : Z).                 (* ts.T = t on the object last given to SetTimestamp *)
 Inductive bret := BRNil | BRErr | BRPanic.
+
+(* a history on one packet object: constructor-side calls interleaved with encodings.  Bytes() and
+   MakePretendPacket do not change the packet: the model is stateless per encoding, every encoding is a
+   function of the object's current fields only *)
+Inductive hop :=
+| HOp (o : bop)
+| HEncode                         (* p.Bytes() *)
+| HFiller (seq n : Z).            (* q := p.MakePretendPacket(seq, n); q.Bytes() *)
 
 Definition bstep (p : packet) (o : bop) : res (packet * bool) :=
   match o with
@@ -646,6 +668,7 @@ Definition bstep (p : packet) (o : bop) : res (packet * bool) :=
   | BResetTs => Ok (reset_timestamp p, false)
   | BClear => Ok (clear_data p, false)
   | BNewData d dims => new_data p d dims
+  | BMutTs t => Ok (mut_ts p t, false)
   end.
 
 (* the calls stop at the first panic *)
